@@ -11,7 +11,7 @@ trap 'git -C /repo worktree remove --force $wt 2>/dev/null' EXIT
 pkg=$(grep -m1 '^name' $wt/$crate/Cargo.toml | sed 's/.*"\(.*\)".*/\1/')
 mkdir -p $wt/$crate/tests
 cp $dir/demo.rs $wt/$crate/tests/seed_demo.rs
-feat=""; [ "$pkg" = dashu-ratio ] && feat="--features dashu-float"
+feat="${SV_FEATURES:-}"; [ "$pkg" = dashu-ratio ] && feat="--features dashu-float $feat"
 ( cd $wt && cargo test -p $pkg --test seed_demo $feat >/tmp/sv-demo0-$$.log 2>&1 ); d0=$?
 if ! git -C $wt apply $dir/patch.diff; then echo "RESULT patch-does-not-apply"; exit 1; fi
 ( cd $wt && cargo test -p $pkg --test seed_demo $feat >/tmp/sv-demo1-$$.log 2>&1 ); d1=$?
